@@ -407,6 +407,9 @@ func (h *hydra) SummonSwamp(ctx context.Context, islandID uint64, swampName name
 	result, _ := h.summoningSwamps.LoadOrStore(swampName.Get(), newSwampWaiter())
 	waiter, _ := result.(*SwampWaiter)
 	atomic.AddInt32(&waiter.count, 1)
+	if verifhook.Enabled {
+		verifhook.Point("summon.counted", ctx, swampName.Get(), waiter, atomic.LoadInt32(&waiter.count))
+	}
 	h.summonMu.Unlock()
 	release := func() {
 		h.summonMu.Lock()
@@ -416,6 +419,9 @@ func (h *hydra) SummonSwamp(ctx context.Context, islandID uint64, swampName name
 			if verifhook.Enabled {
 				verifhook.Point("summon.leave.del", ctx, swampName.Get(), waiter)
 			}
+		}
+		if verifhook.Enabled {
+			verifhook.Point("summon.uncounted", ctx, swampName.Get(), waiter, atomic.LoadInt32(&waiter.count))
 		}
 		h.summonMu.Unlock()
 	}
@@ -430,6 +436,9 @@ func (h *hydra) SummonSwamp(ctx context.Context, islandID uint64, swampName name
 		case <-ctx.Done():
 			// Ha a kontextus megszakad, jelezzük a többi várakozó goroutinnak, hogy ne várjanak tovább
 			waiter.cond.Broadcast()
+			if verifhook.Enabled {
+				verifhook.Point("summon.giveup.locked", ctx, swampName.Get(), waiter)
+			}
 			waiter.cond.L.Unlock()
 			release()
 			if verifhook.Enabled {
@@ -444,6 +453,9 @@ func (h *hydra) SummonSwamp(ctx context.Context, islandID uint64, swampName name
 		}
 	}
 	waiter.ready = true
+	if verifhook.Enabled {
+		verifhook.Point("summon.ready.set", ctx, swampName.Get(), waiter)
+	}
 	waiter.cond.L.Unlock()
 	if verifhook.Enabled {
 		verifhook.Point("summon.inside", ctx, swampName.Get(), waiter)
@@ -454,6 +466,9 @@ func (h *hydra) SummonSwamp(ctx context.Context, islandID uint64, swampName name
 		waiter.cond.L.Lock()
 		waiter.ready = false
 		waiter.cond.Broadcast() // Értesítjük a többi várakozót
+		if verifhook.Enabled {
+			verifhook.Point("summon.ready.clear", ctx, swampName.Get(), waiter)
+		}
 		waiter.cond.L.Unlock()
 		if verifhook.Enabled {
 			verifhook.Point("summon.leave.unready", ctx, swampName.Get(), waiter)
@@ -531,6 +546,9 @@ func (h *hydra) SummonSwamp(ctx context.Context, islandID uint64, swampName name
 
 				}
 
+				if verifhook.Enabled {
+					verifhook.Point("summon.found", ctx, swampName.Get(), waiter, swampObject)
+				}
 				return swampObject, nil
 
 			}
@@ -544,6 +562,9 @@ func (h *hydra) SummonSwamp(ctx context.Context, islandID uint64, swampName name
 
 			// Store the swamp in the hydra map, which is a sync.Map.
 			h.swamps.Store(swampName.Get(), swampObject)
+			if verifhook.Enabled {
+				verifhook.Point("summon.stored", ctx, swampName.Get(), waiter, swampObject)
+			}
 
 			// start sending events to the subscribers if there are any clients subscribed to the events
 			if h.hasEventSubscriber(swampName) {
@@ -919,6 +940,9 @@ func (h *hydra) createNewSwamp(islandID uint64, swampName name.Name) swamp.Swamp
 	// next SummonSwamp would construct a second live instance next to it.
 	var created swamp.Swamp
 	closeCallback := func(n name.Name) {
+		if verifhook.Enabled {
+			verifhook.Point("swampmap.callback", n.Get(), created)
+		}
 		h.swamps.CompareAndDelete(n.Get(), created)
 	}
 
